@@ -1,12 +1,17 @@
 #!/bin/sh
 # Build the framework from files on disk only (offline): regenerate the
 # translated Gallina from /repo, full .vo build of the whole development.
+# A file that fails to compile does not stop the others (make -k); the check of
+# the property that needs it rebuilds it and reports the failure itself.
 cd "$(dirname "$0")" || exit 2
-set -e
-/venv/bin/python -B harness/setup.py
-/venv/bin/python -B harness/gen_coqproject.py >/dev/null
-cd coq
-coq_makefile -f _CoqProject -o Makefile >/dev/null
-timeout 3000 make -j16 2>&1 | grep -v "^Closed under\|^COQC\|^COQDEP" | tail -40
-timeout 3000 make -j16 >/dev/null 2>&1
+/venv/bin/python -B harness/setup.py || exit 2
+/venv/bin/python -B harness/gen_coqproject.py >/dev/null || exit 2
+cd coq || exit 2
+coq_makefile -f _CoqProject -o Makefile >/dev/null || exit 2
+timeout 3000 make -k -j16 >../.scratch_setup.log 2>&1
+rc=$?
+grep -E "^File |^Error|\*\*\*" ../.scratch_setup.log | head -40
+rm -f ../.scratch_setup.log
+if [ $rc -ne 0 ]; then echo "setup: some files did not build (see above); checks of other properties are unaffected"; fi
 echo "setup ok"
+exit 0
